@@ -93,6 +93,7 @@ const c20Data = `{"top":"t","c":{"gl":5,"gc":{"gx":"abc"},"idr":"id-b","e":"two"
 
 const c20LoadText = `module ld { yang-version 1.1; namespace "urn:ld"; prefix ld; import dep { prefix d; } include sub; revision 0;
   feature f; grouping g { leaf a { type d:dt; } container c { leaf b { type string; } } }
+  anydata blob; anyxml blob2;
   container u1 { uses g; } container u2 { uses g { refine a { default "9"; } } } list l { key k; leaf k { type string; } uses d:rg; }
   augment "/u1/c" { leaf added { type string; if-feature f; } } }`
 
